@@ -111,13 +111,16 @@ theorem proj_regFold (q : List QItem) (c : Conn) :
   rw [h1, h4, h5, h6]
 
 /-- **Every per-link operation of the shell is a finite sequence of allowed C06 ops on the window view**
-(and keeps the conn id). -/
-theorem wfrom_closed (now : Nat) (arm : Arm) (classic : Bool) (hok : ∀ op, OpOk arm classic op → ok op) :
+(and keeps the conn id).  `hfresh`: in the reload arm the source relation accepts C06's `fresh` view for every conn
+id (a freshly constructed link has no predecessor). -/
+theorem wfrom_closed (now : Nat) (arm : Arm) (classic : Bool) (hok : ∀ op, OpOk arm classic op → ok op)
+    (hfresh : arm = .reload → ∀ id, Src C06.fresh id) :
     Closed now arm classic (WFrom (F := F) ok Src) := by
   have hs : ∀ c h, ok (.setLink c h) := fun c h => hok _ trivial
   refine
     { soft := ?_, queue := ?_, take := ?_, mark := ?_, reconnect := ?_, reg3 := ?_, recover := ?_, srtAck := ?_,
-      sack := ?_, gack := ?_, nak := ?_, select := ?_ }
+      sack := ?_, gack := ?_, nak := ?_, select := ?_,
+      fresh := fun harm id _ => ⟨C06.fresh, hfresh harm id, WReach.refl _ _⟩ }
   · intro l l' hsoft h
     exact h.next hsoft.connId (WReach.flags hs hsoft.window hsoft.cong)
   · intro _ l pkt seq _ h
@@ -181,17 +184,29 @@ def SrcOf (ls0 : List (FLink F)) (a : C06.WS) (id : Nat) : Prop :=
 
 /-- **One event** (every constructor): the window view of every link after the event is reachable, by
 C06 ops which the event's arm and the configured mode allow, from the window view of a link with the same
-conn id before it. -/
+conn id before it — or, after a reload (`Ev.reload`) only, the link is freshly constructed and its view is C06's
+`fresh` (a retained link keeps its whole record: the empty op sequence). -/
 theorem win_step (s : Sys F) (e : Ev) :
-    ∀ l' ∈ (step s e).1.links, ∃ l ∈ s.links, l.core.connId = l'.core.connId ∧
-      WReach (OpOkEv e s.cfg.classic) (C06.proj l.core) (C06.proj l'.core) := by
-  have h0 : All (WFrom (OpOkEv e s.cfg.classic) (SrcOf s.links)) s.links :=
-    fun l hl => ⟨_, ⟨l, hl, rfl, rfl⟩, WReach.refl _ _⟩
+    ∀ l' ∈ (step s e).1.links, (∃ l ∈ s.links, l.core.connId = l'.core.connId ∧
+      WReach (OpOkEv e s.cfg.classic) (C06.proj l.core) (C06.proj l'.core)) ∨
+      (e.isReload = true ∧ C06.proj l'.core = C06.fresh) := by
   intro l' hl'
-  obtain ⟨a, ⟨l, hl, hid, rfl⟩, hr⟩ :=
-    step_all s e (fun arm harm => wfrom_closed (evNow e) arm s.cfg.classic (fun op hop => ⟨arm, harm, hop⟩))
-      h0 l' hl'
-  exact ⟨l, hl, hid, hr⟩
+  cases hnr : e.isReload with
+  | true =>
+    cases e with
+    | reload now addrs outs =>
+      rcases mem_reload hl' with ⟨h1, -⟩ | ⟨id, a, -, -, rfl⟩
+      · exact .inl ⟨l', h1, rfl, WReach.refl _ _⟩
+      · exact .inr ⟨rfl, rfl⟩
+    | _ => cases hnr
+  | false =>
+    have h0 : All (WFrom (OpOkEv e s.cfg.classic) (SrcOf s.links)) s.links :=
+      fun l hl => ⟨_, ⟨l, hl, rfl, rfl⟩, WReach.refl _ _⟩
+    obtain ⟨a, ⟨l, hl, hid, rfl⟩, hr⟩ :=
+      step_all s e (fun arm harm => wfrom_closed (evNow e) arm s.cfg.classic (fun op hop => ⟨arm, harm, hop⟩)
+        (fun hr => by subst hr; cases e <;> first | (cases harm; done) | (cases hnr; done)))
+        h0 l' hl'
+    exact .inl ⟨l, hl, hid, hr⟩
 
 /-- A fresh link's window view is C06's `fresh`. -/
 theorem proj_new (connId now : Nat) : C06.proj (FLink.newRegistering connId now : FLink F).core = C06.fresh := rfl
